@@ -18,15 +18,15 @@ import (
 )
 
 type cexFile struct {
-	Property string     `json:"property"`
-	Entry    string     `json:"entry"`
-	Label    string     `json:"label"`
-	Kind     string     `json:"kind"`
-	Msg      string     `json:"msg"`
-	Inputs   []InputVal `json:"inputs"`
-	Trail    []int64    `json:"decisions"`
-	Observes []string   `json:"observed,omitempty"`
-	PkgDir   string     `json:"pkgdir"`
+	Property string           `json:"property"`
+	Entry    string           `json:"entry"`
+	Label    string           `json:"label"`
+	Kind     string           `json:"kind"`
+	Msg      string           `json:"msg"`
+	Inputs   []InputVal       `json:"inputs"`
+	Trail    []int64          `json:"decisions"`
+	Observes []string         `json:"observed,omitempty"`
+	PkgDir   string           `json:"pkgdir"`
 	Params   map[string]int64 `json:"params"`
 	Sched    []schedEv        `json:"schedule,omitempty"`
 	Points   []string         `json:"points,omitempty"`
@@ -197,6 +197,19 @@ func replayNative(dir string, v *Violation, lc LoadConfig) (bool, string) {
 		if strings.Contains(string(out2), "DATA RACE") {
 			return true, ""
 		}
+		// The scheduled replay orders every pair of operations through the
+		// token hand-offs, which the race detector sees as synchronisation. So a
+		// race the schedule does not expose is confirmed on the free-running
+		// real build with the same inputs (race detector on, repeated runs).
+		cmd3 := exec.CommandContext(ctx, "go", "test", "-race", "-vet=off", "-count=40", "-failfast", "-timeout", "120s",
+			"-overlay", filepath.Join(dir, "overlay.json"), "-run", "^TestVerifReplay$", ".")
+		cmd3.Dir = lc.PkgDir
+		cmd3.Env = append(os.Environ(), "GOPROXY=off", "GOSX_REPLAY_MODE=free")
+		out3, _ := cmd3.CombinedOutput()
+		os.WriteFile(filepath.Join(dir, "replay-race-free.log"), out3, 0o644)
+		if strings.Contains(string(out3), "DATA RACE") {
+			return true, ""
+		}
 		s = string(out2)
 	}
 	tail := s
@@ -207,4 +220,30 @@ func replayNative(dir string, v *Violation, lc LoadConfig) (bool, string) {
 		return false, "native replay passed: the counterexample does not reproduce against the real build"
 	}
 	return false, "native replay failed differently: " + strings.ReplaceAll(tail, "\n", " | ")
+}
+
+// nativeTrace runs a replay directory natively with tracing on and returns the VERIF-TRACE lines.
+func nativeTrace(dir string, lc LoadConfig) ([]string, string) {
+	ctx, cancel := context.WithTimeout(context.Background(), 300*time.Second)
+	defer cancel()
+	cmd := exec.CommandContext(ctx, "go", "test", "-vet=off", "-count=1", "-timeout", "60s",
+		"-overlay", filepath.Join(dir, "overlay.json"), "-run", "^TestVerifReplay$", "-v", ".")
+	cmd.Dir = lc.PkgDir
+	cmd.Env = append(os.Environ(), "GOPROXY=off", "GOSX_TRACE=1")
+	out, err := cmd.CombinedOutput()
+	os.WriteFile(filepath.Join(dir, "replay.log"), out, 0o644)
+	var tr []string
+	for _, ln := range strings.Split(string(out), "\n") {
+		if strings.HasPrefix(ln, "VERIF-TRACE ") {
+			tr = append(tr, strings.TrimPrefix(ln, "VERIF-TRACE "))
+		}
+	}
+	if err != nil {
+		tail := string(out)
+		if len(tail) > 400 {
+			tail = tail[len(tail)-400:]
+		}
+		return tr, "go test failed: " + strings.ReplaceAll(tail, "\n", " | ")
+	}
+	return tr, ""
 }
